@@ -26,6 +26,7 @@ from typing import Any, Dict, List, Optional, Tuple
 from asl.absint import UNKNOWN, AbsEval, Machine
 from asl.cfg import CFG, Node, cfg_of
 from asl.loader import AnalysisError, Unit, norm
+from .common import make_resolver
 
 LEVEL = {
     "decided": "C13: (R13.1) _AsyncGeneratorContextManager.__aexit__ abstractly evaluated over all 33 feasible "
@@ -148,14 +149,19 @@ class _CmOps:
             return UNKNOWN
         return UNKNOWN
 
+    GEN_METHODS = ("self.gen.__anext__", "self.gen.athrow", "self.gen.aclose", "anext")
+
     def raises(self, node: Node, env):
-        if node.kind != "await":
+        """The single interaction with the generator is modelled at the *call* node that
+        creates its awaitable (the await follows in the same protected region), so the
+        operand of the await may be any expression (e.g. a conditional expression)."""
+        if node.kind != "call":
             return None
-        call = node.info.get("value")
-        if not isinstance(call, ast.Call):
-            return None
+        call = node.ast
         text = norm(call.func)
-        if text not in ("self.gen.__anext__", "self.gen.athrow", "self.gen.aclose", "anext"):
+        if text not in self.GEN_METHODS:
+            return None
+        if text == "anext" and not (call.args and norm(call.args[0]) == "self.gen"):
             return None
         ev = AbsEval(self)
         args = tuple(ev.eval(a, env) for a in call.args)
@@ -216,9 +222,10 @@ def classify(oc, passed) -> str:
     return "T" if r else "F"
 
 
-def evaluate_exit(cfg: CFG, params: List[str], block: str, reaction: Tuple) -> List[Tuple[str, Tuple, Any]]:
+def evaluate_exit(cfg: CFG, params: List[str], block: str, reaction: Tuple, ctx=None, unit=None) -> List[Tuple[str, Tuple, Any]]:
     env, passed = base_env(params, block)
     ops = _CmOps(reaction, passed)
+    resolver = make_resolver(ctx, unit, ops) if ctx is not None and unit is not None else None
     gen_excs: List[Tuple] = []
     orig_raises = ops.raises
 
@@ -230,7 +237,7 @@ def evaluate_exit(cfg: CFG, params: List[str], block: str, reaction: Tuple) -> L
 
     ops.raises = raises  # type: ignore[method-assign]
     out = []
-    for oc in Machine(cfg, ops).run(env):
+    for oc in Machine(cfg, ops, resolver=resolver).run(env):
         if oc.terminal.kind == "raise_exit":
             e = oc.env.get("@exc")
             if isinstance(e, tuple) and e[:1] == ("exc",):
@@ -269,7 +276,7 @@ def run(ctx) -> None:
         for reaction, want in SPEC[block].items():
             ctx.count("cells")
             cell = f"block={block} generator={_rtext(reaction)}"
-            results = evaluate_exit(cfg, params, block, reaction)
+            results = evaluate_exit(cfg, params, block, reaction, ctx, u)
             if not results:
                 ctx.fail("R13.1", u, "__aexit__", f"[{cell}] abstract evaluation produced no outcome")
                 continue
